@@ -197,3 +197,79 @@ func cmpWire(t *cqlT, v *val, w *wnode, probs *probset) {
 		}
 	}
 }
+
+// shortUdt re-serialises a walked value (protocol v3+) keeping only the first k fields of every UDT
+// node that has more than k fields: a legal "short" UDT value (specs section 6: a UDT value "is
+// allowed to have less values than the type has fields"; the missing trailing fields are null).
+func shortUdt(t *cqlT, w *wnode, k int) []byte {
+	if t.kind == "scalar" {
+		return w.raw
+	}
+	var out []byte
+	elem := func(kt *cqlT, kw *wnode) {
+		if kw.null {
+			out = append(out, 0xff, 0xff, 0xff, 0xff)
+			return
+		}
+		b := shortUdt(kt, kw, k)
+		out = append(out, be(4, uint64(len(b)))...)
+		out = append(out, b...)
+	}
+	switch t.kind {
+	case "list", "set":
+		out = append(out, be(4, uint64(len(w.kids)))...)
+		for _, kw := range w.kids {
+			elem(t.kids[0], kw)
+		}
+	case "map":
+		out = append(out, be(4, uint64(len(w.kids)))...)
+		for i, kw := range w.kids {
+			out = append(out, be(4, uint64(len(w.keys[i])))...)
+			out = append(out, w.keys[i]...)
+			elem(t.kids[1], kw)
+		}
+	case "tuple":
+		for i, kw := range w.kids {
+			elem(t.kids[i], kw)
+		}
+	case "udt":
+		n := len(w.kids)
+		if n > k {
+			n = k
+		}
+		for i := 0; i < n; i++ {
+			elem(t.kids[i], w.kids[i])
+		}
+	}
+	return out
+}
+
+// markShort returns v with the fields k.. of every (reachable) UDT node set to null: what a short
+// UDT value means.
+func markShort(t *cqlT, v *val, k int) *val {
+	c := v.clone()
+	var rec func(t *cqlT, v *val)
+	rec = func(t *cqlT, v *val) {
+		if v.null {
+			return
+		}
+		for i := range v.kids {
+			if t.kind == "udt" && i >= k {
+				v.kids[i].null = true
+			}
+			rec(t.valueKid(i), v.kids[i])
+		}
+	}
+	rec(t, c)
+	return c
+}
+
+func maxUdtFields(t *cqlT) int {
+	m := 0
+	t.walk(func(n *cqlT) {
+		if n.kind == "udt" && len(n.kids) > m {
+			m = len(n.kids)
+		}
+	})
+	return m
+}
